@@ -1435,6 +1435,22 @@ class StateEngine(object):
             context["State"] = {"Name": None}
         current_state = context["State"].get("Name")
 
+        if current_state or "Branch" in context["State"]:
+            """
+            An event for any state other than the Start State was published by
+            the engine itself and carries the Execution context set up when
+            the execution started. One that doesn't cannot be interpreted.
+            """
+            execution = context.get("Execution")
+            if not (isinstance(execution, dict) and
+                    isinstance(execution.get("Id"), str) and
+                    "Input" in execution and
+                    isinstance(execution.get("StartTime"), str)):
+                self.log_and_drop(
+                    "event {} has an incomplete $.context.Execution field", event, id
+                )
+                return
+
         if not current_state and "Branch" not in context["State"]:
             """
             If current_state is uninitialised it means we are the Start State.
